@@ -32,11 +32,11 @@ SPEC = {
 
 
 def run(ctx: Ctx):
-    exmap.r2_1(ctx)
-    frames.equivariant_on_generic_path(ctx, "R2.2")
-    exmap.r2_3(ctx)
-    frames.orthonormal(ctx, "R1.1")
-    frames.right_handed_and_anchored(ctx, "R1.1h", "R1.1a")
-    exmap.r1_2(ctx)
-    exmap.r1_3(ctx)
-    exmap.r1_4(ctx)
+    ctx.attempt("R2.1", lambda: exmap.r2_1(ctx))
+    ctx.attempt("R2.2", lambda: frames.equivariant_on_generic_path(ctx, "R2.2"))
+    ctx.attempt("R2.3", lambda: exmap.r2_3(ctx))
+    ctx.attempt("R1.1", lambda: frames.orthonormal(ctx, "R1.1"))
+    ctx.attempt("R1.1h", lambda: frames.right_handed_and_anchored(ctx, "R1.1h", "R1.1a"))
+    ctx.attempt("R1.2", lambda: exmap.r1_2(ctx))
+    ctx.attempt("R1.3", lambda: exmap.r1_3(ctx))
+    ctx.attempt("R1.4", lambda: exmap.r1_4(ctx))
